@@ -817,3 +817,12 @@ Proof.
   - rewrite skipn_all2 by (rewrite (He l eq_refl); lia). apply app_nil_r.
   - destruct (length data); simpl; apply app_nil_r.
 Qed.
+
+(** GRreadlut converts the palette as a lut_dimX x lut_dimY image (1 wide, nentries high) of 3 components *)
+Lemma lut_read_lemma : forall {A} (d : A) lil (l dst : list A),
+    length l = 768 -> length dst = 768 ->
+    il_convert_walk ILpixel lil (lut_dimX 256) (lut_dimY 256) 3 1 l dst = il_convert_spec d ILpixel lil 1 256 3 1 l.
+Proof.
+  intros A d lil l dst Hl Hd. unfold lut_dimX, lut_dimY.
+  apply il_convert_correct_lemma; auto.
+Qed.
